@@ -114,6 +114,17 @@ def node_terms(t):
     return rows
 
 
+def fe_order(case):
+    """the analytic levels of the case in the order in which one extractor is asked for them (derived from the case, so that it replays)"""
+    lv = [a for a in case["levels"] if a <= 4 or case["collinear"]]
+    lv = [a for a in lv if a < 5 or case["class"] != "arms"]
+    if len(lv) < 2:
+        return []
+    k = (case["tree"]["n"] + len(case["tree"]["pids"])) % len(lv)
+    lv = lv[k:] + lv[:k]
+    return lv + lv[:2][::-1]
+
+
 class TreeVol(Suite):
     name = "c14.tree"
     case_timeout = 120
@@ -202,8 +213,23 @@ class TreeVol(Suite):
         res = {"vol": {str(a): float(get_volume(t, accuracy=a)) for a in case["levels"]}}
         if case["collinear"]:
             res["terms"] = node_terms(case["tree"])
-        if case["tree"]["n"] >= 1 and not case["collinear"]:
-            from swcgeom.analysis import extract_feature  # noqa: F401 - front end checked in C10
+        # the front end `extract_feature(tree).get('volume', accuracy=…)`: ONE extractor object asked a sequence of requests (levels in a
+        # case-dependent order, the three calling forms) must answer each request with the volume at the requested level
+        order = fe_order(case)
+        if order:
+            from swcgeom.analysis import extract_feature
+
+            ex = extract_feature(t)
+            fe = []
+            for j, a in enumerate(order):
+                if j % 3 == 0:
+                    v = ex.get("volume", accuracy=a)
+                elif j % 3 == 1:
+                    v = ex.get([("volume", {"accuracy": a})])[0]
+                else:
+                    v = ex.get({"volume": {"accuracy": a}})["volume"]
+                fe.append([a, float(np.asarray(v).reshape(-1)[0])])
+            res["fe"] = fe
         return res
 
     def lines(self, case, res):
@@ -236,6 +262,13 @@ class TreeVol(Suite):
             out.append(("level1", f"accuracy 1 reports {res['vol']['1']}, sum of node spheres is {spheres}"))
         if "2" in res["vol"] and not close(res["vol"]["2"], spheres + fr):
             out.append(("level2", f"accuracy 2 reports {res['vol']['2']}, spheres + frusta is {spheres + fr}"))
+        for a, v in res.get("fe", []):
+            want = res["vol"].get(str(a))
+            # float32 result of the front end against the float64 answer of get_volume at the SAME level
+            if want is not None and abs(v - want) > 1e-5 * max(abs(want), 1e-30) + 1e-30:
+                out.append(("extract-volume", f"one extractor asked for the levels {[x for x, _ in res['fe']]} in this order answered "
+                            f"{v} at accuracy {a}; get_volume(tree, accuracy={a}) = {want}"))
+                break
         if case["collinear"]:
             tv = profile_volume(t)
             for a in case["levels"]:
